@@ -72,8 +72,9 @@ type genv struct {
 	names  []string // assignable names
 	inLoop int
 	budget int
-	fresh  int
-	failed bool
+	fresh    int
+	failed   bool
+	noGrowth bool
 }
 
 var textAlphabet = []string{"", "x", "ab", " ", "y ", " z", "\n", ". ", "é", "1,"}
@@ -290,19 +291,30 @@ func (g *genv) assign() *N {
 	if g.p.NoArith && k == gNum {
 		k = gInt
 	}
+	// Inside a loop an assignment must not be able to grow a value on every iteration
+	// (a = a | concat: a doubles it; three nested loops would need 2^1000 elements):
+	// growth filters are switched off there, which bounds every value by the program size.
+	g.noGrowth = g.inLoop > 0
 	e := g.expr(k, 2)
+	g.noGrowth = false
 	g.vars[name] = k
 	return Assign(name, e)
 }
 
 func (g *genv) capture(depth int) *N {
-	name := []string{"c1", "c2", "s", "ok?"}[g.pick("cname", 4)]
+	name := []string{"c1", "c2", "ok?", "s"}[g.pick("cname", 4)]
+	if name == "s" && g.inLoop > 0 {
+		name = "c1" // a captured variable printed inside its own capture body in a loop doubles on every iteration
+	}
 	// break/continue escaping a capture body is excluded by construction
 	saved := g.inLoop
 	g.inLoop = 0
 	body := g.block(depth+1, 1)
 	g.inLoop = saved
-	g.vars[name] = gStr
+	if name == "s" {
+		g.vars[name] = gStr
+	}
+	// c1, c2 and ok? are read by the probes a check appends, never by generated expressions
 	return Capture(name, body...)
 }
 
@@ -532,9 +544,15 @@ func (g *genv) exprD(k gkind, depth int, plain bool) *E {
 					return Flt(g.exprD(gStr, depth-1, false), []string{"upcase", "downcase", "strip", "lstrip", "rstrip"}[g.pick("sf", 5)])
 				},
 				func() *E {
+					if g.noGrowth {
+						return leaf()
+					}
 					return Flt(g.exprD(gStr, depth-1, false), []string{"append", "prepend"}[g.pick("ap", 2)], g.plain([]gkind{gStr, gInt}[g.pick("apk", 2)]))
 				},
 				func() *E {
+					if g.noGrowth {
+						return leaf()
+					}
 					arr := g.exprD([]gkind{gArrInt, gArrStr, gArrMix}[g.pick("jk", 3)], depth-1, false)
 					if g.pick("sep", 2) == 0 {
 						return Flt(arr, "join")
@@ -557,7 +575,12 @@ func (g *genv) exprD(k gkind, depth int, plain bool) *E {
 			opts = append(opts,
 				func() *E { return Flt(g.exprD(k, depth-1, false), "reverse") },
 				func() *E { return Flt(g.exprD(k, depth-1, false), "uniq") },
-				func() *E { return Flt(g.exprD(k, depth-1, false), "concat", g.exprD(k, 0, true)) },
+				func() *E {
+					if g.noGrowth {
+						return leaf()
+					}
+					return Flt(g.exprD(k, depth-1, false), "concat", g.exprD(k, 0, true))
+				},
 			)
 			if k != gArrMix {
 				opts = append(opts, func() *E { return Flt(g.exprD(k, depth-1, false), "sort") })
